@@ -56,6 +56,8 @@ pub enum Base {
 #[derive(Serialize, Deserialize, Clone, Debug, PartialEq)]
 pub enum Damage {
     Truncate(usize),
+    /// the last k bytes never arrive
+    CutTail(usize),
     Flip { pos: usize, bit: u8 },
     Subst { pos: usize, byte: u8 },
     DeleteSpan { pos: usize, len: usize },
@@ -120,6 +122,9 @@ pub struct Sc {
     pub stack_kib: usize,
     pub receiver: Receiver,
     pub msg: Msg,
+    /// channel damage applied after the message is built (any kind of message)
+    #[serde(default)]
+    pub post_damage: Vec<Damage>,
     pub cfg: Cfg,
 }
 
@@ -169,6 +174,7 @@ fn apply_damage(mut m: Vec<u8>, d: &Damage) -> Vec<u8> {
     let n = m.len();
     match d {
         Damage::Truncate(k) => m.truncate(*k.min(&n)),
+        Damage::CutTail(k) => m.truncate(n.saturating_sub(*k)),
         Damage::Flip { pos, bit } => {
             if n > 0 {
                 m[pos % n] ^= 1 << (bit % 8);
@@ -461,7 +467,8 @@ fn gen_untyped_base(rng: &mut Rng, hostile: bool) -> Option<(SEnv, Vec<SType>, V
 
 fn gen_damage(rng: &mut Rng, approx_len: usize) -> Damage {
     let n = approx_len.max(8);
-    match rng.below(12) {
+    match rng.below(14) {
+        12 | 13 => Damage::CutTail(rng.range(1, 9) as usize),
         0 | 1 => Damage::Truncate(rng.usize(n + 1)),
         2 | 3 => Damage::Flip { pos: rng.usize(n), bit: rng.below(8) as u8 },
         4 | 5 => Damage::Subst { pos: rng.usize(n), byte: *rng.pick(&[0x00u8, 0x01, 0x02, 0x7f, 0x80, 0xff, 0x6c, 0x6d, 0x6e, 0x6b, 0x6a, 0x69, 0x68, 0x70, 0x71, 0x7d, 0x7c, 0x6f, 0x67]) },
@@ -507,7 +514,7 @@ fn gen_byz(rng: &mut Rng) -> Byz {
             Byz::Methods { names, non_func: rng.chance(1, 3) }
         }
         8 => Byz::Annotations { count: *rng.pick(&[0u8, 1, 2, 255]), bytes: vec![*rng.pick(&[0u8, 1, 2, 3, 4, 255]), 1] },
-        9 => Byz::Future { opcode: *rng.pick(&[-25i64, -26, -100, i64::MIN + 1]), len: *rng.pick(&[0u64, 1, 2, 1 << 20, (1 << 63) - 1]), arg: rng.chance(1, 2) },
+        9 => Byz::Future { opcode: *rng.pick(&[-25i64, -26, -100, i64::MIN + 1]), len: *rng.pick(&[0u64, 1, 2, 3, 5, 9, 31, 1 << 20, (1 << 63) - 1]), arg: rng.chance(3, 4) },
         10 => Byz::BadIndex(*rng.pick(&[1i64, 2, -18, -19, -20, -21, -22, -23, -25, 1 << 40])),
         11 => Byz::LebPad { signed: rng.chance(1, 2), pad: *rng.pick(&[1u32, 8, 9, 17, 18, 19, 20, 30, 1000]), terminated: rng.chance(3, 4), as128: rng.chance(1, 2) },
         12 => Byz::LenBeyond { blob: rng.chance(1, 2), len: *rng.pick(&[4u64, 1 << 20, 1 << 32, (1 << 63) - 1, u64::MAX]) },
@@ -539,6 +546,7 @@ pub fn generate(_prop: &str, _tier: Tier, seed: u64, run: u64) -> Sc {
     let cfg = Cfg { decoding_quota: q(&mut knobs), skipping_quota: q(&mut knobs), max_type_len: *knobs.pick(&[None, None, Some(0usize), Some(5), Some(100), Some(1 << 30)]), full_error: knobs.chance(1, 2) };
     let corp = corpus::corpus();
     let byz = wl.chance(1, 3);
+    let mut post_damage: Vec<Damage> = Vec::new();
     let (msg, receiver) = if byz {
         let r = match wl.below(6) {
             0 => Receiver::NoType,
@@ -547,6 +555,9 @@ pub fn generate(_prop: &str, _tier: Tier, seed: u64, run: u64) -> Sc {
             3 => Receiver::Native(corp[wl.usize(corp.len())].name.clone()),
             _ => Receiver::Native(wl.pick(&BOMB_RECEIVERS).to_string()),
         };
+        if fl.chance(1, 2) {
+            post_damage = if fl.chance(1, 2) { vec![Damage::CutTail(fl.range(1, 4) as usize)] } else { (0..fl.range(1, 2)).map(|_| gen_damage(&mut fl, 24)).collect() };
+        }
         (Msg::Byzantine(gen_byz(&mut fl)), r)
     } else if wl.chance(1, 2) {
         let ty = if wl.chance(1, 3) { wl.pick(&BOMB_RECEIVERS).to_string() } else { corp[wl.usize(corp.len())].name.clone() };
@@ -575,7 +586,7 @@ pub fn generate(_prop: &str, _tier: Tier, seed: u64, run: u64) -> Sc {
             None => (Msg::Byzantine(gen_byz(&mut fl)), Receiver::NoType),
         }
     };
-    Sc { stack_kib, receiver, msg, cfg }
+    Sc { stack_kib, receiver, msg, post_damage, cfg }
 }
 
 // ---------------------------------------------------------------- execution
@@ -653,10 +664,13 @@ pub fn execute(sc: &Sc, ctx: &mut Ctx) -> Result<(), String> {
     for k in ["skip_path", "opt_backtrack", "check_subtype", "primitive_vec_fast_path", "bignum_vec_fast_path", "map_fast_path", "recursion_guard_tripped", "quota_error", "tick_cap_without_quota", "decoded_ok", "header_rejected", "table_cap_rejected"] {
         ctx.stats.declare_probe(k);
     }
-    let Some(bytes) = build_msg(&sc.msg) else {
+    let Some(mut bytes) = build_msg(&sc.msg) else {
         ctx.stats.probe("base_message_not_built");
         return Ok(());
     };
+    for d in &sc.post_damage {
+        bytes = apply_damage(bytes, d);
+    }
     let sc2 = sc.clone();
     let b2 = bytes.clone();
     let obs = on_thread(sc.stack_kib * 1024, move || decode(&sc2, &b2)).map_err(|e| format!("wire engine (C06) panicked outside a guarded call: {e}"))?;
@@ -688,6 +702,9 @@ pub fn execute(sc: &Sc, ctx: &mut Ctx) -> Result<(), String> {
         }
         Msg::Byzantine(b) => ctx.stats.fault(&format!("byzantine_{}", format!("{b:?}").split(['(', ' ', '{']).next().unwrap_or("").to_lowercase()), 1),
         Msg::Raw(_) => {}
+    }
+    for d in &sc.post_damage {
+        ctx.stats.fault(&format!("channel_{}", format!("{d:?}").split(['(', ' ', '{']).next().unwrap_or("").to_lowercase()), 1);
     }
     if sc.cfg.decoding_quota.is_some() {
         ctx.stats.fault("decoding_quota_set", 1);
@@ -767,7 +784,7 @@ pub fn size(sc: &Sc) -> usize {
         Msg::Raw(h) => h.len() / 2,
         Msg::Byzantine(_) => 5000,
         Msg::Honest { damage, .. } => 6000 + damage.len() * 10,
-    };
+    } + sc.post_damage.len() * 10 + if sc.post_damage.is_empty() { 0 } else { 6000 };
     let r = match &sc.receiver {
         Receiver::Untyped { env, tys } => env.0.values().map(|t| t.nodes()).sum::<usize>() + tys.iter().map(|t| t.nodes()).sum::<usize>(),
         _ => 1,
@@ -778,11 +795,15 @@ pub fn size(sc: &Sc) -> usize {
 pub fn shrink(sc: &Sc) -> Vec<Sc> {
     let mut out = Vec::new();
     // explicit bytes first: replay no longer depends on generators
-    if !matches!(sc.msg, Msg::Raw(_)) {
-        if let Some(b) = build_msg(&sc.msg) {
+    if !matches!(sc.msg, Msg::Raw(_)) || !sc.post_damage.is_empty() {
+        if let Some(mut b) = build_msg(&sc.msg) {
+            for d in &sc.post_damage {
+                b = apply_damage(b, d);
+            }
             if b.len() <= 6000 {
                 let mut s = sc.clone();
                 s.msg = Msg::Raw(crate::engines::stream::hex(&b));
+                s.post_damage.clear();
                 out.push(s);
             }
         }
